@@ -85,3 +85,134 @@ pub fn run(l: &[i128]) -> Vec<i128> {
     }
     pm.data().iter().map(|x| *x as i128).collect()
 }
+
+/// args: colorspace(0 Linear 1 Gamma2 2 SimpleSRGB 3 FullSRGBGamma) mode aa r g b a n then n * (dr dg db da)
+/// Public API only: an n x 1 pixmap with the given (premultiplied) destination, one fill_rect over it (inset by half a
+/// pixel at both ends when aa, so the end pixels are partially covered) -> the n resulting pixels (r g b a each)
+pub fn run_cs_px(l: &[i128]) -> Vec<i128> {
+    if l.len() < 8 {
+        return vec![-3];
+    }
+    use tiny_skia::{ColorSpace, Rect, Transform};
+    let cs = [ColorSpace::Linear, ColorSpace::Gamma2, ColorSpace::SimpleSRGB, ColorSpace::FullSRGBGamma][(l[0] as usize) % 4];
+    let mode = MODES[(l[1] as usize) % 29];
+    let aa = l[2] != 0;
+    let n = l[7] as usize;
+    if l.len() < 8 + 4 * n || n == 0 {
+        return vec![-3];
+    }
+    let mut pm = Pixmap::new(n as u32, 1).unwrap();
+    for i in 0..n {
+        let d = &l[8 + 4 * i..12 + 4 * i];
+        pm.data_mut()[4 * i..4 * i + 4].copy_from_slice(&[d[0] as u8, d[1] as u8, d[2] as u8, d[3] as u8]);
+    }
+    let mut paint = Paint::default();
+    paint.set_color_rgba8(l[3] as u8, l[4] as u8, l[5] as u8, l[6] as u8);
+    paint.blend_mode = mode;
+    paint.anti_alias = aa;
+    paint.colorspace = cs;
+    let inset = if aa { 0.5 } else { 0.0 };
+    let rect = match Rect::from_ltrb(inset, 0.0, n as f32 - inset, 1.0) {
+        Some(r) => r,
+        None => return vec![-3],
+    };
+    pm.fill_rect(rect, &paint, Transform::identity(), None);
+    pm.data().iter().map(|x| *x as i128).collect()
+}
+
+/// Mask operations against their documented values.
+/// args: op w h seed <builder ops for op 3>
+///   op 0 Mask::from_pixmap(Alpha), 1 from_pixmap(Luminance), 2 invert, 3 intersect_path (aa = seed & 1), 4 Pixmap::apply_mask,
+///   5 apply_mask with a mask of another size (documented: nothing happens)
+/// -> [checked, bad, x, y, got, expected]
+pub fn run_mask_ops(l: &[i128]) -> Vec<i128> {
+    if l.len() < 4 {
+        return vec![-3];
+    }
+    use tiny_skia::{FillRule, IntSize, MaskType, Transform};
+    let op = l[0];
+    let (w, h) = (l[1] as u32, l[2] as u32);
+    let mut st = l[3] as u64 ^ 0x9E37_79B9_7F4A_7C15;
+    let mut next = move || {
+        st = st.wrapping_mul(6364136223846793005).wrapping_add(1442695040888963407);
+        (st >> 33) as u32
+    };
+    let mut pm = match Pixmap::new(w, h) {
+        Some(v) => v,
+        None => return vec![-3],
+    };
+    for p in pm.pixels_mut() {
+        let a = match next() % 4 {
+            0 => 255,
+            1 => 0,
+            _ => next() % 256,
+        };
+        *p = tiny_skia::PremultipliedColorU8::from_rgba((next() % (a + 1)) as u8, (next() % (a + 1)) as u8, (next() % (a + 1)) as u8, a as u8).unwrap();
+    }
+    let old: Vec<u8> = (0..w * h).map(|_| [0u8, 255, 255, 1, 254, 128][(next() % 6) as usize].wrapping_add((next() % 3 == 0) as u8 * (next() % 200) as u8)).collect();
+    let (mut checked, mut bad) = (0i128, 0i128);
+    let mut first = [0i128; 4];
+    let mut judge = |i: usize, got: f64, exp: f64, tol: f64| {
+        checked += 1;
+        if (got - exp).abs() > tol {
+            bad += 1;
+            if first[3] == 0 && first[2] == 0 {
+                first = [(i as u32 % w) as i128, (i as u32 / w) as i128, got as i128, (exp * 1000.0) as i128 + 1];
+            }
+        }
+    };
+    match op {
+        0 | 1 => {
+            let m = Mask::from_pixmap(pm.as_ref(), if op == 0 { MaskType::Alpha } else { MaskType::Luminance });
+            for (i, p) in pm.pixels().iter().enumerate() {
+                let a = p.alpha() as f64;
+                let exp = if op == 0 {
+                    a
+                } else if a == 0.0 {
+                    0.0
+                } else {
+                    // Y = 0.2126 R + 0.7152 G + 0.0722 B of the demultiplied colour, as coverage: times alpha
+                    0.2126 * p.red() as f64 + 0.7152 * p.green() as f64 + 0.0722 * p.blue() as f64
+                };
+                judge(i, m.data()[i] as f64, exp, if op == 0 { 0.0 } else { 1.01 });
+            }
+        }
+        2 => {
+            let mut m = Mask::from_vec(old.clone(), IntSize::from_wh(w, h).unwrap()).unwrap();
+            m.invert();
+            for i in 0..old.len() {
+                judge(i, m.data()[i] as f64, 255.0 - old[i] as f64, 0.0);
+            }
+        }
+        3 => {
+            let path = match crate::c02::build_path(&l[4..]) {
+                Some(p) => p,
+                None => return vec![-4],
+            };
+            let aa = l[3] & 1 != 0;
+            let mut fresh = Mask::new(w, h).unwrap();
+            fresh.fill_path(&path, FillRule::Winding, aa, Transform::identity());
+            let mut m = Mask::from_vec(old.clone(), IntSize::from_wh(w, h).unwrap()).unwrap();
+            m.intersect_path(&path, FillRule::Winding, aa, Transform::identity());
+            for i in 0..old.len() {
+                judge(i, m.data()[i] as f64, old[i] as f64 * fresh.data()[i] as f64 / 255.0, 0.51);
+            }
+        }
+        4 | 5 => {
+            let (mw, mh) = if op == 4 { (w, h) } else { (w + 1, h) };
+            let md: Vec<u8> = (0..mw * mh).map(|i| old[(i % (w * h)) as usize]).collect();
+            let m = Mask::from_vec(md.clone(), IntSize::from_wh(mw, mh).unwrap()).unwrap();
+            let before: Vec<u8> = pm.data().to_vec();
+            pm.apply_mask(&m);
+            for i in 0..(w * h) as usize {
+                for j in 0..4 {
+                    let exp = if op == 4 { before[4 * i + j] as f64 * md[i] as f64 / 255.0 } else { before[4 * i + j] as f64 };
+                    let exact = op == 5 || md[i] == 255 || md[i] == 0;
+                    judge(i, pm.data()[4 * i + j] as f64, exp, if exact { 0.0 } else { 1.01 });
+                }
+            }
+        }
+        _ => return vec![-3],
+    }
+    vec![checked, bad, first[0], first[1], first[2], first[3]]
+}
